@@ -90,6 +90,9 @@ type wbuild struct {
 	dirInWay map[string]bool
 	fs       *faultState
 	focus    string
+	load     string
+	lastMut     func(m2 *Machine) (string, OutSpec, string)
+	lastMutKind string
 }
 
 var runCounter int
